@@ -20,6 +20,7 @@ PA(s) == NPath(s, FALSE)
 P(ty, opt, sub) == [ty |-> ty, opt |-> opt, sub |-> sub]
 \* n s b a o f j x (ns) a<n> a<s>
 Types == { <<1, <<>>>>, <<2, <<>>>>, <<4, <<>>>>, <<16, <<>>>>, <<32, <<>>>>, <<64, <<>>>>, <<128, <<>>>>, <<256, <<>>>>, <<3, <<>>>>,
+           <<18, <<>>>>, <<17, <<>>>>, <<20, <<>>>>,      \* unions with the array type: (sa) (na) (ba)
            <<16, <<P(1, 0, <<>>)>>>>, <<16, <<P(2, 0, <<>>)>>>> }
 Params == {P(t[1], o, t[2]) : t \in Types, o \in 0..3}
 \* an option is meaningful in these positions: - first, + last, ? trailing; all others are still tried
@@ -48,6 +49,13 @@ ScopeProgs(a, b) == {
     NBlock(<<NAssign("mk", NLambda(<<"n">>, NLambda(<<"m">>, NArray(<<V("n"), V("m")>>)))), NAssign("g", NCall(V("mk"), <<a>>)), NAssign("h", NCall(V("mk"), <<b>>)),
              NArray(<<NCall(V("g"), <<b>>), NCall(V("h"), <<a>>)>>)>>),                                                 \* closures keep their own bindings
     NBlock(<<NAssign("f", NLambda(<<"n">>, NCond(NCmpOp("<=", V("n"), NNum(IntV(0))), a, NCall(V("f"), <<NNumOp("-", V("n"), NNum(IntV(1)))>>)))), NCall(V("f"), <<NNum(IntV(3))>>)>>),   \* recursion through its own variable
+    \* a closure is called, the variable it reads is rebound in its defining frame, and it is called again
+    NBlock(<<NAssign("x", a), NAssign("f", NLambda(<<>>, V("x"))), NAssign("r", NCall(V("f"), <<>>)), NAssign("x", b), NArray(<<V("r"), NCall(V("f"), <<>>)>>)>>),
+    NBlock(<<NAssign("x", a), NAssign("f", NBlock(<<NAssign("g", NLambda(<<>>, V("x"))), V("g")>>)), NAssign("r", NCall(V("f"), <<>>)), NAssign("x", b), NArray(<<V("r"), NCall(V("f"), <<>>)>>)>>),
+    NBlock(<<NAssign("x", a), NAssign("mk", NLambda(<<>>, NLambda(<<>>, V("x")))), NAssign("f", NCall(V("mk"), <<>>)), NAssign("r", NCall(V("f"), <<>>)), NAssign("x", b),
+             NArray(<<V("r"), NCall(V("f"), <<>>), NCall(NCall(V("mk"), <<>>), <<>>)>>)>>),
+    NBlock(<<NAssign("h", V("string")), NAssign("f", NLambda(<<"v">>, NCall(V("h"), <<V("v")>>))), NAssign("r", NCall(V("f"), <<a>>)), NAssign("h", V("count")), NArray(<<V("r"), NCall(V("f"), <<a>>)>>)>>),
+    NBlock(<<NAssign("x", a), NAssign("r", NBlock(<<V("x")>>)), NAssign("x", b), NArray(<<V("r"), NBlock(<<V("x")>>), NBlock(<<NBlock(<<V("x")>>)>>)>>)>>),
     NBlock(<<NAssign("f", NLambda(<<>>, NBlock(<<NAssign("x", b), V("x")>>))), NAssign("x", a), NArray(<<NCall(V("f"), <<>>), V("x")>>)>>),
     NBlock(<<NAssign("f", NLambda(<<>>, NAssign("x", b))), NAssign("x", a), NArray(<<NCall(V("f"), <<>>), V("x")>>)>>),    \* assignment in a call's own frame
     PA(<<NName(ka), NBlock(<<NAssign("c", NVar("")), NLambda(<<>>, V("c"))>>)>>),                                    \* function values escape
@@ -82,14 +90,19 @@ PartialProgs == {NBlock(<<NAssign("f", F3), NAssign("g", NPartial(V("f"), sl)), 
 \* (d) chains
 Inc == NLambda(<<"v">>, NNumOp("+", V("v"), NNum(IntV(1))))
 Dbl == NLambda(<<"v">>, NNumOp("*", V("v"), NNum(IntV(2))))
-Stage == {Inc, Dbl, V("string"), NCall(V("power"), <<NNum(IntV(2))>>), NCall(V("append"), <<NNum(IntV(0))>>), NPartial(V("power"), <<NPlace, NNum(IntV(2))>>),
+Nothing == NLambda(<<"v">>, PA(<<NName(<<110, 111>>)>>))          \* a stage that yields no value
+First == NLambda(<<"v">>, NPred(V("v"), <<NNum(IntV(0))>>))
+Stage == {Nothing, V("count"), V("exists"), Inc, Dbl, V("string"), NCall(V("power"), <<NNum(IntV(2))>>), NCall(V("append"), <<NNum(IntV(0))>>), NPartial(V("power"), <<NPlace, NNum(IntV(2))>>),
           NCall(Inc, <<>>), NNum(IntV(5)), V("nosuch")}
 ChainProgs == {NApply(NNum(IntV(3)), s1) : s1 \in Stage} \cup {NApply(NApply(NNum(IntV(3)), s1), s2) : s1 \in Stage, s2 \in Stage}
               \cup {NApply(NNum(IntV(3)), NBlock(<<NApply(s1, s2)>>)) : s1 \in Stage, s2 \in Stage}
               \cup {NCall(NBlock(<<NApply(NApply(s1, s2), s3)>>), <<NNum(IntV(3))>>) : s1 \in {Inc, Dbl, V("string")}, s2 \in {Inc, Dbl, V("string")}, s3 \in {Inc, Dbl, V("string")}}
+              \* f ~> g as a value: g runs even when f yields no value (f then g)
+              \cup {NCall(NBlock(<<NApply(s1, s2)>>), <<a>>) : s1 \in {Nothing, First}, s2 \in {V("count"), V("exists"), V("string"), NLambda(<<"v">>, NNum(IntV(9)))}, a \in {NArray(<<>>), NNum(IntV(3))}}
+              \cup {NCall(NBlock(<<NApply(NApply(Inc, s1), s2)>>), <<NNum(IntV(3))>>) : s1 \in {Nothing}, s2 \in {V("count"), V("exists"), NLambda(<<"v">>, NNum(IntV(9)))}}
 
 \* a chain held in a variable is a value: extending it twice gives two independent chains
-Fn3 == {Inc, Dbl, V("string")}
+Fn3 == {Inc, Dbl, V("string"), Nothing, V("count")}
 ChainValueProgs == {NBlock(<<NAssign("c", NApply(NApply(s1, s2), s3)), NAssign("d", NApply(V("c"), Inc)), NAssign("e", NApply(V("c"), Dbl)),
                              NArray(<<NCall(V("d"), <<NNum(IntV(3))>>), NCall(V("e"), <<NNum(IntV(3))>>), NCall(V("c"), <<NNum(IntV(3))>>)>>)>>) :
                         s1 \in Fn3, s2 \in Fn3, s3 \in Fn3}
